@@ -78,6 +78,9 @@ pub enum Cmd {
     Sink,
     /// `stopself`: the process stops itself (SIGSTOP) and goes on when someone continues it
     StopSelf,
+    /// `tick w<id> <n>`: increments its counter and succeeds while the new value is <= n
+    /// (makes a loop body behave differently from one iteration to the next)
+    Tick { id: u16, n: u32 },
 }
 
 /// Categories of failing commands (docs/src/termination.md "Shell errors").
@@ -496,6 +499,7 @@ impl Printer {
             Cmd::Cat => "cat".into(),
             Cmd::Sink => "sink".into(),
             Cmd::StopSelf => "stopself".into(),
+            Cmd::Tick { id, n } => format!("tick w{id} {n}"),
         }
     }
 }
@@ -985,6 +989,12 @@ impl Eval {
             }
             Cmd::StopSelf => {
                 st.status = 0;
+                Ok(())
+            }
+            Cmd::Tick { id, n } => {
+                let v = st.vars.entry(10_000 + *id).or_default();
+                *v += 1;
+                st.status = if *v <= *n { 0 } else { 1 };
                 Ok(())
             }
             Cmd::Sink => {
